@@ -8,6 +8,9 @@ import Rl.Editor
 import Rl.Lemmas.Keys
 import Rl.Lemmas.KeysProgress
 import Rl.Lemmas.EditorSafe
+import Rl.Lemmas.EditorSafe2
+import Rl.Lemmas.EditorRead
+import Rl.Lemmas.EditorNext
 import Rl.Lemmas.EditorFrame
 open Rl
 
@@ -69,36 +72,46 @@ theorem C17_decoder_io_only_at_end (i : Input) (sea : Bool) (h : 36 ≤ i.size) 
   omega
 
 /-- Full statement (editor): from the initial state no key sequence makes the editor model reach
-    a panic outcome. False on the pinned tree before the D5 repair (`y^` slices backwards).
-    Proved so far: the per-command form `C17_execute_safe` below for the commands of `C17_covered`
-    (from a state satisfying `EdWF` — cursors on character boundaries, history index in range, kill
-    ring bounds invariant `RingOK` — the step neither panics nor breaks `EdWF`), for helpers that do
-    not panic.  Not covered yet: `YankPop` (needs the cross-step fact "the cursor has not moved since
-    the yank": `end - yank_size`), `Undo` (needs the log invariant of C05), `ReplaceChar`,
-    `Overwrite`, `Indent`, `Dedent`, the history commands (`PreviousHistory` …
-    `HistorySearchForward`), and the sub-loops. -/
+    a panic outcome.  AS WRITTEN IT IS NOT PROVABLE: three of its hypotheses are too weak for what the
+    code does (each witnessed below) —
+    * the completer contract must also put `start` on a character boundary
+      (`C17_completer_start_inside_char_panics`; `String::replace_range`);
+    * `Cmd::redo` of vi's `R` converts the byte length of the last insertion to a `RepeatCount`
+      (`RepeatCount::try_from(len).unwrap()`): an insertion of more than 65535 bytes followed by
+      `Esc .` panics — remote, but a genuine panic of the real code (finding D-redo-len);
+    * in vi mode a `YankPop` bound by the application underflows `end - yank_size` after `p`/`P`
+      (the cursor is moved back over the last pasted cluster).
+    Proved instead: `C17_editor_no_panic_partial` (the whole read — every command but `Undo`,
+    `YankPop`, `ReplaceChar`, all sub-loops, the main loop by induction on the fuel — GIVEN the named
+    open obligations `C17_Open`), `C17_next_safe_emacs` (the `next_cmd` obligation in emacs mode) and
+    `C17_editor_no_panic_emacs`. -/
 def C17_editor_no_panic_statement : Prop :=
   ∀ (S : Segmenter) (U : UData) (cfg : EdCfg) (left right : Text) (inp : Input),
     (∀ t, cfg.validator t ≠ .panic) → cfg.hinterPanicAt = none →
     (∀ t p, (cfg.completer t p).1 ≤ p) →
     (readline S U cfg (KillRing.new 60) left right inp).1 ≠ .panic
 
-/-- the commands for which `execute` is proved panic-free and invariant-preserving -/
+/-- the commands for which `execute` is proved panic-free and invariant-preserving: all but three.
+    Left open (each is a hypothesis of `C17_editor_no_panic_partial`):
+    * `Undo` — `Change::undo` slices the line at the recorded indices; no panic needs the C05 log
+      invariant (`C05_undo_past_text`), which is not yet carried through every command and sub-loop
+      (the abort paths truncate the log: `C05_abort_transparent_statement`);
+    * `YankPop` — `end - yank_size`: needs the cross-step fact that the cursor still stands right
+      after the yanked text (`safe_editYankPop` is the conditional step); in vi mode it is FALSE after
+      `P`/`p` (the cursor is moved back one cluster) — reachable only through an application binding
+      of `YankPop` in vi mode;
+    * `ReplaceChar` — `RepeatCount::try_from(count).unwrap()`: needs `count ≤ n ≤ 65535`, i.e. a
+      stable segmenter and the bound on numeric arguments from the keymap. -/
 def C17_covered : Cmd → Bool
-  | .move _ | .selfInsert _ _ | .newline | .insert _ _ | .completeHint
-  | .transposeChars | .capitalizeWord | .downcaseWord | .upcaseWord | .transposeWords _
-  | .clearScreen | .repaint | .interrupt | .endOfFile
-  | .kill _ | .replace _ _ | .yank _ _ | .viYankTo _
-  | .acceptLine | .acceptOrInsertLine _
-  | .abort | .complete | .completeBackward | .noop | .unknown | .suspend | .quotedInsert
-  | .reverseSearchHistory | .forwardSearchHistory => true
-  | _ => false
+  | .undo _ | .yankPop | .replaceChar _ _ => false
+  | _ => true
 
 /-- **Per-command no-panic**: for helpers that do not panic (validator verdict never `panic`,
-    `hinterPanicAt = none`; a panicking helper is C16's business), from a state satisfying `EdWF` every
-    covered command returns or exits without the panic outcome, and `EdWF` holds again afterwards. -/
+    `hinterPanicAt = none`; a panicking helper is C16's business) and an indent size that fits the
+    code's `u8`, from a state satisfying `EdWF` every covered command returns or exits without the
+    panic outcome, and `EdWF` holds again afterwards. -/
 theorem C17_execute_safe (S : Segmenter) (U : UData) (cfg : EdCfg) (hv : ∀ t, cfg.validator t ≠ .panic)
-    (hnp : cfg.hinterPanicAt = none)
+    (hnp : cfg.hinterPanicAt = none) (hind : cfg.indentSize ≤ 255)
     (cmd : Cmd) (hc : C17_covered cmd = true) (s : Ed) (h : EdWF cfg s) :
     wp (execute S U cfg cmd) (fun _ s' => EdWF cfg s') (fun o _ => o ≠ .panic) s := by
   cases cmd <;> simp only [C17_covered, Bool.false_eq_true] at hc
@@ -206,7 +219,7 @@ theorem C17_execute_safe (S : Segmenter) (U : UData) (cfg : EdCfg) (hv : ∀ t, 
         | true => exact h2
         | false =>
           simp only [Bool.not_false, if_true, wp_bind, wp_changesEnd, wp_pure]
-          exact EdWF.mk' h2.line h2.saved h2.idx h2.ring
+          exact EdWF.mk' h2.line h2.saved h2.ring
       exact key (cfg.vi && s2.inp.inputMode != .command)
     refine wp_mono (safe_editKill S U cfg mvt hnp h) ?_ (fun _ _ h => h)
     intro _ s1 h1
@@ -223,7 +236,7 @@ theorem C17_execute_safe (S : Segmenter) (U : UData) (cfg : EdCfg) (hv : ∀ t, 
     | some t =>
       simp only [wp_bind, wp_pure]
       have h2 : EdWF cfg { s1 with ring := s1.ring.yankCount n } :=
-        EdWF.mk' h1.line h1.saved h1.idx (h1.ring.yankCount n)
+        EdWF.mk' h1.line h1.saved (h1.ring.yankCount n)
       show wp (editYank S U cfg t a n) _ _ { s1 with ring := s1.ring.yankCount n }
       exact safe_editYank S U cfg t a n hnp h2
   case viYankTo mvt =>
@@ -236,6 +249,45 @@ theorem C17_execute_safe (S : Segmenter) (U : UData) (cfg : EdCfg) (hv : ∀ t, 
       show wp (ringKill t >>= fun _ => pure Status.proceed) _ _ s
       simp only [wp_bind, wp_pure]
       exact safe_ringKill cfg t h
+  case overwrite c =>
+    unfold execute; simp only [wp_bind, wp_pure]
+    exact safe_editOverwriteChar S U cfg hnp c h
+  case indent m =>
+    unfold execute; simp only []
+    exact safe_indent S U cfg hnp hind m false h
+  case dedent m =>
+    unfold execute; simp only []
+    exact safe_indent S U cfg hnp hind m true h
+  case nextHistory =>
+    unfold execute; simp only [wp_bind, wp_pure]
+    exact safe_editHistoryNext S U cfg hnp false h
+  case previousHistory =>
+    unfold execute; simp only [wp_bind, wp_pure]
+    exact safe_editHistoryNext S U cfg hnp true h
+  case beginningOfHistory =>
+    unfold execute; simp only [wp_bind, wp_pure]
+    exact safe_editHistory S U cfg hnp true h
+  case endOfHistory =>
+    unfold execute; simp only [wp_bind, wp_pure]
+    exact safe_editHistory S U cfg hnp false h
+  case historySearchBackward =>
+    unfold execute; simp only [wp_bind, wp_pure]
+    exact safe_editHistorySearch S U cfg hnp .reverse h
+  case historySearchForward =>
+    unfold execute; simp only [wp_bind, wp_pure]
+    exact safe_editHistorySearch S U cfg hnp .forward h
+  case lineUpOrPreviousHistory n =>
+    unfold execute; simp only [wp_bind, wp_pure, wp_getPromptCol]
+    refine wp_lbQuiet_safe cfg (lmsafe_moveToLineUp S U n _) h fun b s1 h1 _ _ _ => ?_
+    cases b with
+    | true => simp only [if_true, wp_bind, wp_pure]; exact safe_moveCursor S U cfg h1
+    | false => simp only [Bool.false_eq_true, if_false, wp_bind, wp_pure]; exact safe_editHistoryNext S U cfg hnp true h1
+  case lineDownOrNextHistory n =>
+    unfold execute; simp only [wp_bind, wp_pure, wp_getPromptCol]
+    refine wp_lbQuiet_safe cfg (lmsafe_moveToLineDown S U n _) h fun b s1 h1 _ _ _ => ?_
+    cases b with
+    | true => simp only [if_true, wp_bind, wp_pure]; exact safe_moveCursor S U cfg h1
+    | false => simp only [Bool.false_eq_true, if_false, wp_bind, wp_pure]; exact safe_editHistoryNext S U cfg hnp false h1
   case acceptOrInsertLine aim =>
     rw [execute_acceptOrInsertLine]
     exact safe_withPreAccept S U cfg h fun s1 h1 => safe_execAccept S U cfg hv hnp aim h1
@@ -244,7 +296,7 @@ theorem C17_execute_safe (S : Segmenter) (U : UData) (cfg : EdCfg) (hv : ∀ t, 
 /-- the initial state of a read satisfies the invariant -/
 theorem C17_init_wf (cfg : EdCfg) (ring : KillRing) (input : Input) (hr : RingOK ring) :
     EdWF cfg (initEd cfg ring input) :=
-  ⟨isBoundary_zero _, isBoundary_zero _, Nat.le_refl _, hr.reset⟩
+  ⟨isBoundary_zero _, isBoundary_zero _, hr.reset⟩
 
 /-- the ring a fresh editor starts with satisfies the ring invariant -/
 theorem C17_new_ring_ok (n : Nat) : RingOK (KillRing.new n) := RingOK.new n
@@ -252,7 +304,7 @@ theorem C17_new_ring_ok (n : Nat) : RingOK (KillRing.new n) := RingOK.new n
 /-- resetting the ring at the start of a non-kill command (main loop) keeps the invariant -/
 theorem C17_ring_reset_keeps_wf (cfg : EdCfg) (s : Ed) (h : EdWF cfg s) :
     EdWF cfg { s with ring := s.ring.reset } :=
-  ⟨h.line, h.saved, h.idx, RingOK.reset h.ring⟩
+  ⟨h.line, h.saved, RingOK.reset h.ring⟩
 
 /-- reading and decoding the next command (`next_cmd`, all three keymaps, numeric arguments, custom
     bindings, operator + motion) preserves the invariant: it never touches the line, the saved line
@@ -260,6 +312,88 @@ theorem C17_ring_reset_keeps_wf (cfg : EdCfg) (s : Ed) (h : EdWF cfg s) :
 theorem C17_nextCmd_keeps_wf (S : Segmenter) (U : UData) (cfg : EdCfg) (fuel : Nat) (sea iep : Bool)
     (s s' : Ed) (c : Cmd) (h : EdWF cfg s) (hr : nextCmd S U cfg fuel sea iep s = .ok (c, s')) : EdWF cfg s' :=
   h.of_coreNC ((keeps_nextCmd S U cfg fuel sea iep).ok hr)
+
+/-- the obligations of the whole-read theorem that are NOT discharged (each names a panic site of
+    the real code; see `C17_covered` and `C17_next_safe_emacs`):
+    * `next`: `next_cmd` does not panic.  Open in vi mode (`vi_num_args`' `unreachable!()` needs the
+      sign invariant of the numeric argument through the digit loops) and for the `.`-redo of `R`
+      after an insertion of more than 65535 bytes (`RepeatCount::try_from(len).unwrap()`,
+      keymap.rs — a genuine, if remote, panic of the real code: D-redo-len);
+    * `exec`: `Undo`, `YankPop`, `ReplaceChar` are safe from the read invariant. -/
+structure C17_Open (S : Segmenter) (U : UData) (cfg : EdCfg) : Prop where
+  next : NextSafe S U cfg
+  exec : ∀ cmd s, C17_covered cmd = false → RdInv cfg s → RSafe cfg (execute S U cfg cmd) s
+
+/-- every `execute` step is safe from the read invariant, given the three open commands -/
+theorem C17_exec_safe (S : Segmenter) (U : UData) (cfg : EdCfg) (hv : ∀ t, cfg.validator t ≠ .panic)
+    (hnp : cfg.hinterPanicAt = none) (hind : cfg.indentSize ≤ 255) (ho : C17_Open S U cfg) :
+    ExecSafe S U cfg := by
+  intro cmd s h
+  by_cases hc : C17_covered cmd = true
+  · have hu : IsUndo cmd = false := by
+      cases cmd <;> first | rfl | (simp [C17_covered] at hc)
+    exact rsafe_of cfg (C17_execute_safe S U cfg hv hnp hind cmd hc s h.1) (keeps_grow_execute S U cfg cmd hu) h.2
+  · exact ho.exec cmd s (by simpa using hc) h
+
+/-- **The whole read never ends with the panic outcome** — for helpers that do not panic, an indent
+    size that fits the code's `u8`, a completer that reports a start on a character boundary at or
+    before the cursor, a kill ring satisfying its bounds invariant, and GIVEN the open obligations
+    `C17_Open`.  Covers: every command but `Undo` / `YankPop` / `ReplaceChar`, circular and list
+    completion, incremental search, the dispatch loop, quoted insert, suspend, the main loop (by
+    induction on the fuel; running out of fuel is the outcome `fuel`, not `panic`), the initial
+    text and the final cursor move. -/
+theorem C17_editor_no_panic_partial (S : Segmenter) (U : UData) (cfg : EdCfg) (left right : Text) (inp : Input)
+    (hv : ∀ t, cfg.validator t ≠ .panic) (hnp : cfg.hinterPanicAt = none)
+    (hcomp : ∀ t p, IsBoundary t (cfg.completer t p).1 ∧ (cfg.completer t p).1 ≤ p)
+    (hind : cfg.indentSize ≤ 255) (ho : C17_Open S U cfg) :
+    (readline S U cfg (KillRing.new 60) left right inp).1 ≠ .panic :=
+  readline_no_panic S U cfg ⟨hnp, ho.next, C17_exec_safe S U cfg hv hnp hind ho, hcomp⟩ _ (RingOK.new 60) _ _ _
+
+/-- every command but vi's `R` (`Replace(ForwardChar 0, None)`, whose redo converts the length of
+    the last insertion to a `RepeatCount`) can be re-done whatever the last insertion was -/
+theorem C17_bindOK (c : Cmd) (h : c ≠ .replace (.forwardChar 0) none) : BindOK c := by
+  intro new li hr
+  cases c <;> simp only [Cmd.isRepeatable, Cmd.isRepeatableChange, Bool.false_eq_true] at hr <;>
+    (try exact ⟨_, rfl⟩)
+  case replace m t =>
+    cases t with
+    | some t => exact ⟨_, rfl⟩
+    | none =>
+      unfold Cmd.redo
+      simp only []
+      by_cases hm : (m == Movement.forwardChar 0) = true
+      · have : m = .forwardChar 0 := by simpa using hm
+        subst this
+        exact absurd rfl h
+      · rw [if_neg hm]; exact ⟨_, rfl⟩
+  case selfInsert n ch =>
+    cases li <;> exact ⟨_, rfl⟩
+
+/-- **`next_cmd` never panics in emacs mode**, for helpers that do not panic and a binding table
+    that does not bind vi's `R` command: reading keys, numeric arguments (`M-digit`, `M--`), custom
+    single-key and key-sequence bindings (with re-do of the bound command), `C-x` sequences,
+    character search, bracketed paste. -/
+theorem C17_next_safe_emacs (S : Segmenter) (U : UData) (cfg : EdCfg) (hvi : cfg.vi = false)
+    (hnp : cfg.hinterPanicAt = none) (hb : ∀ b ∈ cfg.binds, b.2 ≠ .replace (.forwardChar 0) none) :
+    NextSafe S U cfg :=
+  nextSafe_emacs S U cfg hvi hnp (fun b hm => C17_bindOK b.2 (hb b hm))
+
+/-- **Emacs mode: the whole read never panics**, given only that the three open commands are safe. -/
+theorem C17_editor_no_panic_emacs (S : Segmenter) (U : UData) (cfg : EdCfg) (left right : Text) (inp : Input)
+    (hvi : cfg.vi = false)
+    (hv : ∀ t, cfg.validator t ≠ .panic) (hnp : cfg.hinterPanicAt = none)
+    (hcomp : ∀ t p, IsBoundary t (cfg.completer t p).1 ∧ (cfg.completer t p).1 ≤ p)
+    (hind : cfg.indentSize ≤ 255) (hb : ∀ b ∈ cfg.binds, b.2 ≠ .replace (.forwardChar 0) none)
+    (hexec : ∀ cmd s, C17_covered cmd = false → RdInv cfg s → RSafe cfg (execute S U cfg cmd) s) :
+    (readline S U cfg (KillRing.new 60) left right inp).1 ≠ .panic :=
+  C17_editor_no_panic_partial S U cfg left right inp hv hnp hcomp hind
+    ⟨C17_next_safe_emacs S U cfg hvi hnp hb, hexec⟩
+
+/-- the completer contract of the full statement (`start ≤ cursor`) is not enough: a start inside a
+    character makes `line.replace(start..pos, …)` panic (String::replace_range off a boundary) -/
+theorem C17_completer_start_inside_char_panics (S : Segmenter) (U : UData) :
+    LB.replace S U 1 2 ['a'] { buf := ['é'], pos := 2, cap := 8, canGrow := true } = .error .panic := by
+  rfl
 
 /-- a panic source that is really reachable: a completer that reports a start offset beyond the
     cursor makes list-mode completion underflow (`pos - start`, lib.rs) — excluded by hypothesis in
